@@ -618,8 +618,13 @@ def gen_hex(rng, n: int) -> bytes:
         h = h.upper()
     elif r < 0.45:
         h = "".join(c.upper() if rng.random() < 0.5 else c for c in h)
-    if rng.random() < 0.2:
+    r = rng.random()
+    if r < 0.2:
         h = "0" * rng.randint(1, 3) + h
+    elif r < 0.45:
+        # zero-padded to a fixed width (chunk-size = 1*HEXDIG): widths around what a reader might assume (8, 16, 32 digits)
+        w = rng.choice([14, 15, 16, 17, 15, 16, 8, 9, 31, 32, 33, 40, rng.randint(1, 40)])
+        h = h.rjust(w, "0")
     if rng.random() < 0.1:
         h = rng.choice(["", " ", "\t"]) + h + rng.choice([" ", "\t", "  "])
     return h.encode()
@@ -639,7 +644,7 @@ def gen_chunked(rng, body: bytes | None = None):
         k = max(1, min(k, len(body) - i))
         wire += gen_hex(rng, k) + rng.choice(TERMS) + body[i:i + k] + rng.choice(TERMS)
         i += k
-    wire += rng.choice([b"0", b"0", b"00", b"000", b" 0 "]) + rng.choice(TERMS) + rng.choice(TERMS)
+    wire += rng.choice([b"0", b"0", b"00", b"000", b" 0 ", b"0" * rng.choice([14, 15, 16, 17, 32, 40])]) + rng.choice(TERMS) + rng.choice(TERMS)
     tail = rng.choice([b"", b"", b"NEXT", b"\r\n", b"0\r\n\r\n", b"5\r\nhello\r\n"])
     return wire + tail, body, tail
 
@@ -661,6 +666,9 @@ def gen_malformed(rng):
         pre = wire[:cut]
         k = pre.rfind(b"0")
         return (pre[:k] if rng.random() < 0.7 and k >= 0 else b"") + bad + w2
+    if r < 0.7:                        # the largest sizes that fit 32 / 64 / 128 bits, far more than what follows
+        big = rng.choice(["7fffffff", "ffffffff", "7fffffffffffffff", "ffffffffffffffff", "FFFFFFFFFFFFFFFFF", "f" * 32, "1" + "0" * 16])
+        return big.encode() + rng.choice(TERMS) + bytes(rng.choice(BODY_ALPHA) for _ in range(rng.randint(0, 6)))
     if r < 0.85:                       # missing / wrong terminator after chunk data
         n = rng.randint(1, 4)
         junk = rng.choice([b"XX", b"\r", b"\rX", b"", b"\x00\n", b" \r\n", b"0\r\n"])
@@ -1108,6 +1116,11 @@ def run(chk: Check) -> None:
             for s1 in range(1, 7):
                 for s2 in range(1, 7):
                     do_dc(wire, [f"r:{s1}", f"r:{s2}", "a", "r:1"], "exhaustive")
+    for width in range(1, 41):
+        for term in TERMS:
+            for size_text in (f"{11:x}".rjust(width, "0"), f"{11:X}".rjust(width, "0")):
+                wire = size_text.encode() + term + b"hello world" + term + b"0" * width + term + term + b"N"
+                do_dc(wire, ["r:4", "a", "r:1"], "exhaustive-width")
     for _ in range(9000 if quick else 120000):
         w, _, _ = gen_chunked(rng)
         do_dc(w, gen_dops(rng), "wf")
